@@ -1,6 +1,7 @@
 import Otel.Base.Wire
 import Otel.C01.Sched
 import Otel.C01.Spec
+import Otel.C01.History
 open Otel Otel.Wire Otel.C01
 
 /-! Line kinds
@@ -83,10 +84,12 @@ def scriptUnsampled (ops : List Op) : List Nat := ops.filterMap fun | .endU id =
 
 /-- Spec oracle on the observations of a controlled schedule: S1, S2 on every log; S5 at the first
 observation in which a ForceFlush / Shutdown shows as returned nil; F22 classification. -/
-def schedOracle (maxB : Nat) (blocking : Bool) (ops : List Op) (obs : List String) : List String × Bool :=
+def schedOracle (maxB : Nat) (blocking : Bool) (lateIds : List Nat) (ops : List Op) (obs : List String) :
+    List String × Bool × Bool :=
   let rec go (allU : List Nat) (ops : List Op) (obs : List String) (prevE : List Nat) (ffPre : List (Nat × List Nat))
-      (sdPre : Option (List Nat)) (doneFF : List Nat) (sdDone : Nat) (bad : List String) (f22 : Bool) :
-      List String × Bool :=
+      (sdPre : Option (List Nat)) (doneFF : List Nat) (sdPres : List (List Nat)) (prevS : List Char)
+      (bad : List String) (f22 f41 : Bool) :
+      List String × Bool × Bool :=
     match ops, obs with
     | op :: ops', o :: obs' =>
       let batches := ((field o "L").bind parseBatches).getD []
@@ -111,23 +114,31 @@ def schedOracle (maxB : Nat) (blocking : Bool) (ops : List Op) (obs : List Strin
           if Spec.delivered blocking pre batches dropped then acc
           else if sdPre.isSome then (acc.1, true) else ("S5:forceflush" :: acc.1, acc.2)) (bad, f22)
       let doneFF := doneFF ++ newly.map (·.1)
-      -- number of Shutdown calls that have returned nil; every new return is judged (S5 with the spans ended
-      -- before the first Shutdown call: later calls owe the same, see `bsp_shutdown_delivers`)
-      let sdField := (field o "S").getD "n"
-      let sdOk := (sdField.toList.filter (· == 'o')).length
-      let sdNow := sdOk ≥ 1
-      let bad := if sdField.toList.any (· == 'e') then "shutdown-error" :: bad else bad
-      let bad := if sdOk > sdDone then
-          (if inX then "S3:shutdown-returned-during-export" :: bad else bad) ++
-          (if Spec.delivered blocking (sdPre.getD []) batches dropped then [] else ["S5:shutdown"])
-        else bad
+      -- every Shutdown call (one status character per call, in call order) that newly shows as returned nil is
+      -- judged with its OWN pre set (the statement as written). A span can be missing from it legitimately only
+      -- through the late-span race F41: `lateIds` = the spans that sit in the exited worker's queue in the model's run
+      -- of the script (`LateEnd_applies`; a parked OnEnd released after the worker's drain had seen the queue empty).
+      -- Everything else missing is S5; and a KNOWN verdict counts only if implementation and model agree on the line.
+      let sdPres := match op with | .sd => sdPres ++ [prevE] | .parkSd => sdPres ++ [prevE] | _ => sdPres
+      let sdField := ((field o "S").getD "n").toList
+      let sdNow := sdField.any (· == 'o')
+      let bad := if sdField.any (· == 'e') then "shutdown-error" :: bad else bad
+      let newlyOk := (List.range sdField.length).filter fun i => sdField[i]? == some 'o' && prevS[i]? != some 'o'
+      let (bad, f41) := newlyOk.foldl (fun (acc : List String × Bool) i =>
+        let own := sdPres[i]?.getD []
+        if inX then ("S3:shutdown-returned-during-export" :: acc.1, acc.2)
+        else if !Spec.delivered blocking (sdPre.getD []) batches dropped then ("S5:shutdown" :: acc.1, acc.2)
+        else if !Spec.delivered blocking (own.filter (!lateIds.contains ·)) batches dropped then
+          ("S5:shutdown-own-pre" :: acc.1, acc.2)
+        else if !Spec.delivered blocking own batches dropped then (acc.1, true)   -- only late spans missing [F41]
+        else acc) (bad, f41)
       -- S4: after Shutdown returned the log must not grow: checked by comparing with the next observation
       let bad := match obs' with
         | o2 :: _ => if (sdNow || expSd ≥ 1) && (field o2 "L") != (field o "L") then "S4" :: bad else bad
         | [] => bad
-      go allU ops' obs' ended ffPre sdPre doneFF (max sdDone sdOk) bad f22
-    | _, _ => (bad, f22)
-  go (scriptUnsampled ops) ops obs [] [] none [] 0 [] false
+      go allU ops' obs' ended ffPre sdPre doneFF sdPres sdField bad f22 f41
+    | _, _ => (bad, f22, f41)
+  go (scriptUnsampled ops) ops obs [] [] none [] [] [] [] false false
 
 def parseEv (t : String) : Option Spec.Ev :=
   if t == "XE" then some .exportEnd
@@ -159,11 +170,17 @@ def stepLine (_ : Unit) (toks : List String) : Unit × Option Verdict :=
       -- where the Go code chooses at random among ready select cases, any of the scheduler variants is accepted
       let agreeV := [0, 1, 2, 3].find? fun v => runSched v (init cap maxB blocking) ops == obs
       let vv := agreeV.getD 0
-      let (bad, f22) := schedOracle maxB blocking ops obs
       let final := (runSchedP vv ({}, init cap maxB blocking) ops).2.2
+      -- the late spans of the model's run: what sits in the queue of the exited worker (`LateEnd_applies`)
+      let lateIds := if LateEnd_applies final then spansOf final.queue else []
+      let (bad, f22, f41) := schedOracle maxB blocking lateIds ops obs
       -- F22 is accepted only when the model itself took one of ForceFlush's early exits (`F22_applies`)
       let f22model := final.ffs.any (fun f => f.ph == .retEarly)
-      let spec := if !bad.isEmpty then "FAIL" else if f22 && f22model then "KNOWN:F22" else if f22 then "FAIL" else "ok"
+      -- F41 likewise only when the late-span race has happened in the model (`LateEnd_applies`, History.lean)
+      let f41model := LateEnd_applies final
+      let spec := if !bad.isEmpty then "FAIL"
+        else if f41 && f41model then "KNOWN:F41" else if f41 then "FAIL:F41-not-in-model"
+        else if f22 && f22model then "KNOWN:F22" else if f22 then "FAIL" else "ok"
       let br := (if final.droppedIds.isEmpty then [] else ["drop"]) ++
         (if final.exported.length ≥ 2 then ["multi-export"] else []) ++
         (if final.ffs.any (·.ph == .retOk) then ["ff-ok"] else []) ++
@@ -173,6 +190,7 @@ def stepLine (_ : Unit) (toks : List String) : Unit × Option Verdict :=
         (if final.sds.isEmpty then [] else ["sd-multi"]) ++
         (if final.sds.any (·.ret) then ["sd-late-ok"] else []) ++
         (if final.unsampled.isEmpty then [] else ["unsampled"]) ++
+        (if f41model then ["late-end"] else []) ++
         (if final.w == .exited then ["exited"] else []) ++
         (if vv != 0 then [s!"variant{vv}"] else [])
       ((), some { agree := agreeV.isSome, spec := spec ++ (if bad.isEmpty then "" else ":" ++ ",".intercalate bad),
@@ -187,12 +205,15 @@ def stepLine (_ : Unit) (toks : List String) : Unit × Option Verdict :=
       -- `histJudge` = `histCheck` with the ended sampled / unsampled ids read off the history (Spec.lean); it is the
       -- function of theorem `bsp_model_history_passes_driver_oracle`
       let (bad, f22) := Spec.histJudge maxB blocking dropped evs
-      let spec := if !bad.isEmpty then "FAIL" else if f22 then "KNOWN:F22" else "ok"
+      -- F41: a later Shutdown call returned nil with spans of its own pre set missing while everything ended before the
+      -- FIRST `sdCalled` is delivered (`hist_f41_never_hides_first_call_loss`); theorem `bsp_model_history_f41_only_late`
+      let f41 := Spec.histF41 blocking dropped evs
+      let spec := if !bad.isEmpty then "FAIL" else if f41 then "KNOWN:F41" else if f22 then "KNOWN:F22" else "ok"
       let nExp := (evs.filter fun | .exportStart _ => true | _ => false).length
       let br := (if dropped > 0 then ["drop"] else []) ++ (if nExp ≥ 2 then ["multi-export"] else []) ++
         (if evs.any (fun | .ffReturned _ true => true | _ => false) then ["ff-ok"] else []) ++
         (if evs.any (fun | .sdReturned true => true | _ => false) then ["sd-ok"] else []) ++
-        (if f22 then ["f22"] else [])
+        (if f22 then ["f22"] else []) ++ (if f41 then ["f41"] else [])
       ((), some { agree := true, spec := spec ++ (if bad.isEmpty then "" else ":" ++ ",".intercalate bad),
                   nontrivial := nExp ≥ 1, branches := if br.isEmpty then "-" else ",".intercalate br,
                   model := "-" })
